@@ -14,7 +14,14 @@
 #include <sanitizer/asan_interface.h>
 #include "cstl/array.h"
 #include <wchar.h>
+/* Private members of the library's structs are named only where a property is ABOUT them, and only in the build that serves that property:
+ * BIG_RB (C02: colours and links) and BIG_HASHPRIV (C19: clean bits, sweep; hash.c is unity-#included there).  Every other build of this file
+ * uses the public API alone, so a change that renames or reorders private members does not take the large cases of 14 properties down with it. */
+#ifdef BIG_HASHPRIV
 #include "hash.c"
+#else
+#include "cstl/hash.h"
+#endif
 #include "../engine/shim.h"
 #include <stdio.h>
 #include <stdlib.h>
@@ -53,6 +60,7 @@ static const char *ordname[] = { "ascending", "descending", "zig-zag", "stride-7
 struct telem { long pad; int key; struct cstl_rbtree_node rn; long tail; int in; };
 static struct telem TE[MAXE];
 static int tcmp(const void *a, const void *b, void *p) { (void)p; return (((const struct telem *)a)->key > ((const struct telem *)b)->key) - (((const struct telem *)a)->key < ((const struct telem *)b)->key); }
+#ifdef BIG_RB
 static int rb_check(const struct cstl_bintree_node *n, const struct cstl_bintree_node *par, int *cnt)
 {
     const struct telem *e; int l, r, red;
@@ -67,6 +75,7 @@ static int rb_check(const struct cstl_bintree_node *n, const struct cstl_bintree
     if (l != r) return -4;
     return l + !red;
 }
+#endif
 static int tv_last, tv_count, tv_bad;
 static int tvisit(const void *e, cstl_bintree_visit_order_t o, void *p)
 {
@@ -89,6 +98,7 @@ static void tree_case(int rb, unsigned n, int dup, int ins, int ers)
         if (chk) {
             size_t sz = rb ? cstl_rbtree_size(&T.rb) : cstl_bintree_size(&T.bt);
             if (is("C01")) CHECK(sz == held, "size %zu after %u inserts", sz, held);
+#ifdef BIG_RB
             if (rb && is("C02")) {
                 int cnt = 0, bh; size_t mn, mx; const struct cstl_bintree_node *root = T.rb.t.root;
                 bh = rb_check(root, NULL, &cnt);
@@ -97,6 +107,7 @@ static void tree_case(int rb, unsigned n, int dup, int ins, int ers)
                 cstl_rbtree_height(&T.rb, &mn, &mx);
                 CHECK(mx < 63 && ((size_t)1 << mx) <= ((size_t)held + 1) * ((size_t)held + 1), "cstl_rbtree_height reports %zu for %u elements, above 2*log2(n+1)", mx, held);
             }
+#endif
             if (is("C01")) {
                 tv_last = -1; tv_count = 0; tv_bad = 0;
                 if (rb) cstl_rbtree_foreach(&T.rb, tvisit, NULL, CSTL_BINTREE_FOREACH_DIR_FWD); else cstl_bintree_foreach(&T.bt, tvisit, NULL, CSTL_BINTREE_FOREACH_DIR_FWD);
@@ -117,7 +128,9 @@ static void tree_case(int rb, unsigned n, int dup, int ins, int ers)
         } else if (r) ((struct telem *)r)->in = 0;
         held--;
         chk = (held & (held - 1)) == 0 || ((held + 1) & held) == 0 || held % 257 == 0;
+#ifdef BIG_RB
         if (chk && rb && is("C02")) { int cnt = 0, bh = rb_check(T.rb.t.root, NULL, &cnt); CHECK(bh > 0 && cnt == (int)held, "red-black structure broken after erasing down to %u elements (code %d)", held, bh); }
+#endif
         if (chk && is("C01")) {
             const void *f = rb ? cstl_rbtree_find(&T.rb, &probe, NULL) : cstl_bintree_find(&T.bt, &probe, NULL);
             if (dup) for (j = 0; j < n; j++) others += TE[j].in && TE[j].key == probe.key;
@@ -171,7 +184,14 @@ static size_t hh(size_t k, size_t m) { hcalls++; return (k * 2654435761u) % m; }
 static int hcount;
 static int hvisit(const void *e, void *p) { (void)p; hcount += ((const struct helem *)e)->in ? 1 : 1000000; return 0; }
 static int hvisit_nc(void *e, void *p) { return hvisit(e, p); }
+#ifdef BIG_HASHPRIV
 static size_t hdirty(const struct cstl_hash *h) { size_t b, d = 0; if (h->bucket.rh.hash == NULL) return 0; for (b = 0; b < h->bucket.count; b++) d += h->bucket.at[b].cst != h->bucket.cst; return d; }
+#define H_PENDING(h, ops, old) ((h).bucket.rh.hash != NULL)
+#define H_COUNT_IS(h, n) ((h).bucket.count == (n))
+#else
+#define H_COUNT_IS(h, n) 1
+#define H_PENDING(h, ops, old) ((ops) < (old))      /* without looking inside: as many keyed operations as there were buckets (C19 says the rehash is over by then) */
+#endif
 static void hash_case(unsigned n, size_t c0, size_t c1, size_t c2)
 {
     struct cstl_hash h; unsigned i, held = 0, ops; int ab;
@@ -181,30 +201,38 @@ static void hash_case(unsigned n, size_t c0, size_t c1, size_t c2)
     cstl_hash_resize(&h, c0, hh);
     for (i = 0; i < n; i++) { HE[i].id = (int)i; HE[i].tail = 0x2222; HE[i].in = 1; cstl_hash_insert(&h, (size_t)i * 13, &HE[i]); held++; evals++; }
     {
-        size_t steps[2]; int s;
+        size_t steps[2], cur_n = c0; int s;      /* cur_n: the bucket count the table has (the last size it was asked for and has reached) */
         steps[0] = c1; steps[1] = c2;
         for (s = 0; s < 2 && !nviol; s++) {
-            size_t old = h.bucket.count; float ld;
+            size_t old = cur_n; float ld;
             SHIM_CALL(ab, cstl_hash_resize(&h, steps[s], NULL)); if (ab) { fail("resize aborted"); break; }
             ld = cstl_hash_load(&h);
             if (is("C19")) CHECK(ld == (float)held / (float)steps[s], "after resize(%zu) of a table with %u elements load is %g", steps[s], held, (double)ld);
             if (is("C04")) { hcount = 0; cstl_hash_foreach_const(&h, hvisit, NULL); CHECK(hcount == (int)held, "foreach_const right after resize(%zu) visited %d of %u elements", steps[s], hcount, held); }
             /* keyed operations until the rehash is over: at most as many as there were buckets; each lookup exact */
-            for (ops = 0; h.bucket.rh.hash != NULL && !nviol; ops++) {
-                unsigned k = (ops * 31u) % n; void *f; unsigned long c = hcalls; size_t d0 = is("C19") ? hdirty(&h) : 0, d1;
+            for (ops = 0; H_PENDING(h, ops, old) && !nviol; ops++) {
+                unsigned k = (ops * 31u) % n; void *f; unsigned long c = hcalls;
+#ifdef BIG_HASHPRIV
+                size_t d0 = is("C19") ? hdirty(&h) : 0, d1;
+#endif
                 SHIM_CALL(ab, f = cstl_hash_find(&h, (size_t)k * 13, NULL, NULL)); evals++;
                 if (ab) { fail("find aborted mid-rehash"); break; }
+#ifdef BIG_HASHPRIV
                 /* the work of one keyed operation does not depend on the size of the table: at most three buckets cleaned, at least one */
                 if (is("C19")) { d1 = hdirty(&h); CHECK(d0 - d1 <= 3 && (d0 - d1 >= 1 || h.bucket.rh.hash == NULL), "one lookup while the rehash from %zu buckets is pending cleaned %zu buckets (allowed: at most 3, and at least 1 unless it completes the rehash)", old, d0 - d1); }
+#endif
                 if (is("C03")) CHECK(f == (HE[k].in ? (void *)&HE[k] : NULL), "find(%u) mid-rehash (%zu -> %zu buckets, operation %u) is wrong", k, old, steps[s], ops);
+#ifdef BIG_HASHPRIV
                 if (is("C19")) CHECK(ops < old, "the rehash from %zu buckets is still pending after %u keyed operations", old, ops + 1);
+#endif
                 (void)c;
                 if ((ops & 127) == 5 && is("C04")) { hcount = 0; cstl_hash_foreach_const(&h, hvisit, NULL); CHECK(hcount == (int)held, "foreach_const mid-rehash visited %d of %u elements", hcount, held); }
                 if ((ops % 3) == 1 && HE[k].in) { cstl_hash_erase(&h, &HE[k]); HE[k].in = 0; held--; }
             }
-            if (is("C19")) { unsigned long c = hcalls; (void)cstl_hash_find(&h, 13, NULL, NULL); CHECK(hcalls - c == 1 && h.bucket.count == steps[s], "after the rehash a lookup consulted the hash %lu times with %zu buckets (requested %zu)", hcalls - c, h.bucket.count, steps[s]); }
+            if (is("C19")) { unsigned long c = hcalls; (void)cstl_hash_find(&h, 13, NULL, NULL); CHECK(hcalls - c == 1 && H_COUNT_IS(h, steps[s]), "after the rehash a lookup consulted the hash %lu times with %zu buckets (requested %zu)", hcalls - c, h.bucket.count, steps[s]); }
             if (is("C03")) for (i = 0; i < n && !nviol; i++) { void *f = cstl_hash_find(&h, (size_t)i * 13, NULL, NULL); CHECK(f == (HE[i].in ? (void *)&HE[i] : NULL), "after the rehash to %zu buckets find(%u) is wrong", steps[s], i); }
             CHECK(cstl_hash_size(&h) == held || !is("C03"), "size %zu, %u elements held", cstl_hash_size(&h), held);
+            cur_n = steps[s];
         }
     }
     if (is("C04")) { hcount = 0; cstl_hash_foreach(&h, hvisit_nc, NULL); CHECK(hcount == (int)held, "foreach visited %d of %u elements", hcount, held); }
